@@ -110,6 +110,8 @@ def run(prog, tier):
     res.minimum('index sites on the load path', n, 28)
     import p_c13 as _c13
     _c13.copy_bound_rule(prog, res, scope={f.usr for f in load}, rule='load-copy-bound')
+    # the scratch buffers the primitive readers fill: every caller's buffer holds what the callee writes (file-derived counts)
+    _c13.buffer_contract_rule(prog, res)
     # ---- recursion -----------------------------------------------------------------------------------
     rec = indexsites.recursion_sites(prog)
     want = ['ezc3d::c3d::readParam', 'ezc3d::c3d::readParam', 'ezc3d::c3d::_readMatrix', 'ezc3d::c3d::_dispatchMatrix']
